@@ -400,7 +400,9 @@ def gen_stress(seed, ncases, backends=("mem", "sql"), nops=40):
                     kind = rng.choice(["secret", "get", "relays", "getrel", "mls", "mlsr", "msg", "findmsg"])
                     if kind == "secret": ops.append(f"save_secret 9 {rng.choice([0, 1, 2])} {(t * 16 + k) % 250 + 1}")
                     elif kind == "get": ops.append(f"get_secret 9 {rng.choice([0, 1, 2])}")
-                    elif kind == "relays": ops.append(f"replace_relays 9 {v % 3000 + 1000},{v % 3000 + 4000},{v % 3000 + 7000}")
+                    elif kind == "relays":
+                        b = (t * nops + k) % 333       # relay numbers < 1000 are 24-byte urls (within every limit)
+                        ops.append(f"replace_relays 9 {b},{b + 333},{b + 666}")
                     elif kind == "getrel": ops.append("relays 9")
                     elif kind == "mls": ops.append(f"mls_write 9 {rng.choice([0, 1, 2])} {v}")
                     elif kind == "mlsr": ops.append(f"mls_read 9 {rng.choice([0, 1, 2])}")
@@ -453,6 +455,9 @@ def oracle_stress(cases):
             regs = collections.defaultdict(lambda: {"w": [], "r": []})
             for e in ev:
                 l = line(e)
+                if l[0] in ("save_secret", "mls_write", "replace_relays", "save_message") and e["res"] != "ok":
+                    _fail(fails, c, rep, "write-refused", f"`{' '.join(l)}` on an existing group returned {e['res']}")
+                    continue
                 if l[0] == "save_secret" and l[1] == "9": regs[("sec", l[2])]["w"].append((e, f"some:{l[3]}"))
                 elif l[0] == "get_secret" and l[1] == "9": regs[("sec", l[2])]["r"].append(e)
                 elif l[0] == "mls_write" and l[1] == "9": regs[("mls", l[2])]["w"].append((e, f"some:{l[3]}"))
@@ -542,3 +547,32 @@ def oracle_stress(cases):
                     _fail(fails, c, rep, "snapshot-not-prefix",
                           f"snapshot {name} of group {g} holds writes {sorted(present)} relay-seq {relay_seq}; a prefix up to {hi} is {sorted(expected)} relay-seq {last_relay}")
     return fails, dict(stats)
+
+# ---- replay of one trace (./check C19 --replay PATH) ----------------------------------------------
+
+def replay(path, facts):
+    """re-executes the cases of a conc trace on the implementation and prints, per distinct history,
+    the results and whether a linearization exists (and is confirmed by the Lean model)"""
+    import shutil, tempfile
+    d = os.path.join(C.VERIF, "corpus", "_replay_tmp")
+    os.makedirs(d, exist_ok=True)
+    shutil.copy(path, os.path.join(d, "r.trace"))
+    try:
+        cases = load_corpus("_replay_tmp")
+    finally:
+        shutil.rmtree(d, ignore_errors=True)
+    run_cases(cases)
+    bad = 0
+    for c in cases:
+        for rep in c["reps"]:
+            try:
+                order = linearize(c, rep, facts) if rep["status"] == "ok" else None
+            except TimeoutError:
+                order = "undecided"
+            verdict = "undecided" if order == "undecided" else ("NOT LINEARIZABLE" if order is None else "linearizable " + str(order))
+            if order not in (None, "undecided") and certify([(c, rep, order)]):
+                verdict = "model disagrees with the linearization found"
+            if order is None:
+                bad += 1
+            print(f"{c['id']} x{rep['count']} status={rep['status']} results={[e['res'][:60] for e in rep['ev']]} post={[p[:60] for p in rep['post']]} :: {verdict}")
+    return 1 if bad else 0
